@@ -11,15 +11,19 @@ HANG = ['deadlock', 'cancel_hangs']
 C14K = ['node_start_twice_without_complete', 'node_complete_without_start', 'body_without_node_start', 'missing_node_complete',
         'complete_reports_error_for_value', 'complete_reports_success_for_failure', 'complete_reports_other_exception']
 F = [
- dict(id='KF-REC2', family='rec_two_scopes', properties=['C01', 'C02', 'C04', 'C05', 'C07', 'C08', 'C09', 'C10', 'C11', 'C13', 'C14'],
-      kinds=HANG + ['over_execution', 'delivered_before_complete', 'error_instead_of_value', 'wrong_error'],
+ dict(id='KF-REC2', family='rec_two_scopes', properties=RUNP,
+      kinds=HANG + ['over_execution', 'delivered_before_complete', 'error_instead_of_value', 'wrong_error', 'wrong_value',
+                    'missing_execution', 'unexpected_args', 'unexpected_default_call', 'missing_default_call',
+                    'complete_count_ne_attempts', 'value_instead_of_error', 'schedule_dependent_outcome'],
       mechanism='a recurrent subgraph that is inside two sub-pipeline scopes which are both active in the run, one of them a one-of candidate '
                 '(e.g. consumed directly and through a candidate): whether a failure inside a re-iteration is contained (stored as a result) '
                 'or raised is decided by the scope that happens to drive the subgraph; when the candidate drives it, the failure is stored, '
                 'the subgraph is abandoned and the other scope waits for the destination forever (hang). The re-iteration hides the '
                 '"processed" marks of the subgraph, so a scope that asks for the destination at that moment executes it once more '
                 '(over-execution within one iteration; the surplus execution can use up max_iterations, so the run ends with a spurious '
-                'RecurrentSubgraphDoesNotHaveResultError). The None propagation that used to be listed here was repaired (D37).',
+                'RecurrentSubgraphDoesNotHaveResultError, or later iterations and their consumers see other arguments and values than the '
+                'reference). Not attributed any more, i.e. reported if they return: None / exception / Recurrent placeholders as '
+                'arguments, nodes that must never run, wrong case routing, lifecycle-grammar kinds. The None propagation that used to be listed here was repaired (D37).',
       witness={'C09': 'witnesses/KF-REC2.json', 'C02': 'witnesses/KF-REC2.json'}),
  dict(id='KF-RECINNER', family='rec_inner_sw', properties=RUNP + ['C19'],
       kinds=['never_node_ran', 'unexpected_args', 'over_execution', 'deadlock', 'cancel_hangs', 'unexpected_default_call',
